@@ -2,7 +2,7 @@
     reaches outside the domain directory.  Only statements here; proofs live in Proofs/VpopProofs.v.
     The model is the code with fixes/C13-dotdot.diff, C13-dashscan.diff and C13-nametoolong.diff applied. *)
 From Qv Require Import Common.Bytes Gen.GenVpop Gen.GenCdb Model.Vpop Model.Cdb Model.VpopFile Spec.VpopSpec Spec.CdbSpec
-  Proofs.VpopProofs Proofs.CdbSafe Proofs.CdbLookup Proofs.CdbMake Proofs.CdbVget.
+  Model.VpopDs Proofs.VpopProofs Proofs.CdbSafe Proofs.CdbLookup Proofs.CdbMake Proofs.CdbVget Proofs.VpopDsProofs.
 Local Open Scope Z_scope.
 
 (** For every users/cdb with a record for the domain whose path is a directory, every domain directory
@@ -181,6 +181,28 @@ Theorem C13_confined_file : forall file pathfs fs vb domain local,
     (forall n, userdir o = Some n -> n = local /\ component local /\ fs local = EDir).
 Proof. exact user_exists_file_safe. Qed.
 Print Assumptions C13_confined_file.
+
+(** ** an already filled struct userconf (the global cache used for MAIL FROM; fixes/C13-dirfd-leak.diff) *)
+
+(** Whatever the structure holds from earlier calls (a stored path ends with the '/' vget_dir() appends):
+    the answer of user_exists() is the one a fresh structure gives, so C13_exists / C13_confined carry over. *)
+Theorem C13_ds_outcome : forall s v pathfs fs vb local, ds_ok s -> path_ok v ->
+  fst (fst (user_exists_ds s v pathfs fs vb local)) = user_exists_with (vg_of pathfs v) fs vb local.
+Proof. exact user_exists_ds_outcome. Qed.
+Print Assumptions C13_ds_outcome.
+
+(** No descriptor is lost: what was opened during the call is closed again or still referenced by the structure
+    (at most the domain and the user directory), and the structure stays well-formed for the next call. *)
+Theorem C13_ds_no_leak : forall s v pathfs fs vb local,
+  let r := user_exists_ds s v pathfs fs vb local in
+  (opens (snd r) + held s = closes (snd r) + held (snd (fst r)))%nat /\ (held (snd (fst r)) <= 2)%nat.
+Proof. exact user_exists_ds_no_leak. Qed.
+Print Assumptions C13_ds_no_leak.
+
+Theorem C13_ds_ok : forall s v pathfs fs vb local, ds_ok s -> path_ok v ->
+  ds_ok (snd (fst (user_exists_ds s v pathfs fs vb local))).
+Proof. exact user_exists_ds_ok. Qed.
+Print Assumptions C13_ds_ok.
 
 (** a database made of two records: well-formed, both lookups answered, a third key absent *)
 Example C13_cdb_nonvacuous :
